@@ -30,6 +30,8 @@ pub enum Kind {
     JsonStore,
     JsonStoreInclude,
     JsonStoreSubstores,
+    /// a store file merged into a store that is not empty (`with_file` on a loaded store)
+    JsonStoreMerge,
     JsonDataset,
     JsonAnnotations,
     JsonAnnotation,
@@ -47,6 +49,7 @@ impl Kind {
             Kind::JsonStore => "json_store",
             Kind::JsonStoreInclude => "json_store_include",
             Kind::JsonStoreSubstores => "json_store_substores",
+            Kind::JsonStoreMerge => "json_store_merge",
             Kind::JsonDataset => "json_dataset",
             Kind::JsonAnnotations => "json_annotations",
             Kind::JsonAnnotation => "json_annotation",
@@ -120,6 +123,8 @@ fn base_profile(rng: &mut Rng, g: &mut GenCfg, w: &mut WorldCfg) {
 
 const MUTATIONS_PER_BASE: u64 = 64;
 
+const MERGE_BASE: &str = r#"{"@type":"AnnotationStore","@id":"mergebase","resources":[{"@type":"TextResource","@id":"mb_r","text":"merge base text"}],"annotationsets":[{"@type":"AnnotationDataSet","@id":"mb_s","keys":[{"@type":"DataKey","@id":"mb_k"}],"data":[{"@type":"AnnotationData","@id":"mb_d","key":"mb_k","value":{"@type":"String","value":"v"}}]}],"annotations":[{"@type":"Annotation","@id":"mb_a","target":{"@type":"TextSelector","resource":"mb_r","offset":{"@type":"Offset","begin":{"@type":"BeginAlignedCursor","value":0},"end":{"@type":"BeginAlignedCursor","value":5}}},"data":[{"@type":"AnnotationData","@id":"mb_d","set":"mb_s"}]},{"@type":"Annotation","target":{"@type":"AnnotationSelector","annotation":"mb_a"},"data":[{"@type":"AnnotationData","@id":"mb_d","set":"mb_s"}]}]}"#;
+
 /// the valid serialisation for base store b and kind, as files + main
 fn base_serialisation(seed: u64, base: u64, kind: Kind) -> Option<(BTreeMap<String, Vec<u8>>, String, Option<String>)> {
     let rs = rng::run_seed(seed, "C19-base", base);
@@ -157,6 +162,16 @@ fn base_serialisation(seed: u64, base: u64, kind: Kind) -> Option<(BTreeMap<Stri
                 br#"{"@type": "AnnotationStore", "@id": "main", "@include": ["/in/sub1.store.stam.json", "/in/sub2.store.stam.json"], "resources": [], "annotationsets": [], "annotations": []}"#.to_vec(),
             );
             Some((files, "/in/main.store.stam.json".to_string(), None))
+        }
+        Kind::JsonStoreMerge => {
+            // the file is merged into a store that already has items: either a small store with ids of
+            // its own (temporary ids of the file are then offset), or the very same store (every id of
+            // the file exists already: the merge paths)
+            let cfg = Config::new();
+            let s = catch(|| world.store.to_json_string(&cfg)).ok()?.ok()?;
+            let into = if base % 2 == 0 { MERGE_BASE.to_string() } else { s.clone() };
+            files.insert("/in/other.store.stam.json".to_string(), s.into_bytes());
+            Some((files, "/in/other.store.stam.json".to_string(), Some(into)))
         }
         Kind::JsonDataset => {
             let ds = world.store.datasets().next()?;
@@ -694,7 +709,7 @@ fn gen_enumerated(seed: u64, e: u64) -> Option<Case> {
     let base = 1_000_000 + e / ENUM_SLOTS;
     let k = (e % ENUM_SLOTS) as usize;
     let mut krng = Rng::new(rng::run_seed(seed, "C19-enum-kind", base));
-    let kind = *krng.pick(&[Kind::Cbor, Kind::Cbor, Kind::JsonStore, Kind::JsonDataset, Kind::CsvStore, Kind::JsonAnnotations]);
+    let kind = *krng.pick(&[Kind::Cbor, Kind::Cbor, Kind::JsonStore, Kind::JsonDataset, Kind::CsvStore, Kind::JsonAnnotations, Kind::JsonStoreMerge]);
     let (mut files, main, base_store_json) = base_serialisation(seed, base, kind)?;
     let data = files.get_mut(&main)?;
     let len = data.len();
@@ -727,6 +742,7 @@ pub fn gen_case(seed: u64, index: u64) -> Option<Case> {
         Kind::JsonStore,
         Kind::JsonStoreInclude,
         Kind::JsonStoreSubstores,
+        Kind::JsonStoreMerge,
         Kind::JsonDataset,
         Kind::JsonAnnotations,
         Kind::JsonAnnotation,
@@ -884,6 +900,11 @@ pub fn run_case(case: &Case) -> CaseOutcome {
                 Ok(_) => Ok(Some(store)),
                 Err(e) => Err(format!("{}", e)),
             }
+        }
+        Kind::JsonStoreMerge => {
+            let base = case.base_store_json.clone().unwrap_or_default();
+            let store = AnnotationStore::from_str(&base, Config::new()).map_err(|e| format!("base store: {}", e))?;
+            store.with_file(&case.main).map(Some).map_err(|e| format!("{}", e))
         }
         Kind::JsonAnnotation => AnnotationBuilder::from_json_str(&case.main).map(|_| None).map_err(|e| format!("{}", e)),
         Kind::StrCursor => Cursor::try_from(case.main.as_str()).map(|_| None).map_err(|e| format!("{}", e)),
